@@ -1,5 +1,5 @@
 #!/venv/bin/python
-"""keep_seed.py <worktree> <seed-id> <property[,property]> "<what it needs to manifest>"
+"""keep_seed.py <worktree> <seed-id> <property[,property]> "<what it needs to manifest>" ["<result of the first run of the checks>"]
 
 Copies a confirmed seeded change (patch.diff, demo.py, the author's README) into /verif/seeded/<seed-id>/,
 applies the patch to /repo, runs every quick check, records which checks report a VIOLATION, and reverts /repo.
@@ -11,6 +11,7 @@ import subprocess
 import sys
 
 wt, sid, props, needs = sys.argv[1:5]
+first_run = sys.argv[5] if len(sys.argv) > 5 else 'caught'
 dst = f'/verif/seeded/{sid}'
 os.makedirs(dst, exist_ok=True)
 shutil.copy(f'{wt}/out/patch.diff', f'{dst}/patch.diff')
@@ -47,6 +48,7 @@ meta = {
                '(two infinite-loop items deselected); then `git -C /repo apply patch.diff`, every ./check <ID>, `git -C /repo checkout -- .`',
         'log': verify,
     },
+    'first_run': first_run,
     'detected_by': caught,
     'detected': bool(set(caught) & set(props.split(','))),
 }
